@@ -155,7 +155,11 @@ def build(G, style="kw", rev=False, submit_root=False, extra=None, init=True):
         else:
             obj = cls()
             for a in now:
+                if style == "assign-peek":
+                    _peek(obj)
                 setattr(obj, a, to_py(n["args"][a], B, rev))
+            if style == "assign-peek":
+                _peek(obj)
         B.objs[l] = obj
         for a in later:
             deferred.append((obj, a, n["args"][a]))
@@ -173,11 +177,23 @@ def build(G, style="kw", rev=False, submit_root=False, extra=None, init=True):
             if l != root or submit_root:
                 submit(G, B, l)
     for obj, a, v in deferred:
+        if style == "assign-peek":
+            _peek(obj)
         setattr(obj, a, to_py(v, B, rev))
     for (l, name) in back:
         if name == "__pre__":
             B.objs[l].add_pretasks(*[B.objs[p] for p in G["nodes"][l]["pre"]])
     return B
+
+
+def _peek(obj):
+    """History "identifier requested in the middle of the construction": whatever it answers (or raises, when a required
+    value is still missing) must not influence the identifier of the finished configuration."""
+    try:
+        obj.__xpm__.identifier
+        obj.__xpm__.raw_identifier
+    except Exception:  # noqa
+        pass
 
 
 def submit(G, B, l, **kw):
